@@ -120,7 +120,7 @@ def run_neutral(prop: str, seed: int = 0):
             report.full_check(mod, ctx)
             new_v = [x for x in ctx.violations if x.key not in known]
             if new_v:
-                out.append((f"neutral:{kind}", "neutral", "FALSE-ALARM", "; ".join(f"{x.rule}@{x.where}" for x in new_v)[:300]))
+                out.append((f"neutral:{kind}", "neutral", "FALSE-ALARM", "; ".join(f"{x.rule}@{x.where}:{x.instance[:80]}" for x in new_v)[:400]))
             else:
                 out.append((f"neutral:{kind}", "neutral", "silent", f"{len(overlay)} modules"))
         except (AnchorMissing, AnalysisError) as e:
